@@ -187,6 +187,9 @@ func (r Reg) String() string {
 	if r.HasCtorOf {
 		fmt.Fprintf(&sb, " same-function-as=r%d", r.CtorOf)
 	}
+	if r.Kind == 5 && embedShapeOK(&r) {
+		sb.WriteString(" (dependency declared through an embedded In field)")
+	}
 	if len(r.Dropped) > 0 {
 		sb.WriteString(" removed=")
 		for i, p := range r.AllProvides() {
